@@ -7,6 +7,8 @@ export EVAL_REPO=/tmp/evalrepo EVAL_VERIF=/tmp/evalverif
 # --direct: apply each change to /repo itself and run the checks of /verif itself (final confirmation; nothing else may use them meanwhile)
 if [ "${1:-}" = "--direct" ]; then unset EVAL_REPO EVAL_VERIF; shift; fi
 ALL=0; if [ "${1:-}" = "--all" ]; then ALL=1; shift; fi
+# --lean: the check of the change's own property + C01 + C02 only
+LEAN=0; if [ "${1:-}" = "--lean" ]; then LEAN=1; shift; fi
 family() {
   case "$1" in
     C04|C05) echo "C04 C05";;
@@ -25,7 +27,8 @@ for item in "$@"; do
   echo "=== $1 $2 $(date +%H:%M:%S)"
   if [ $ALL = 1 ]; then /verif/tools/seed_eval.sh $1 $2 2>&1 | tail -3
   else
-    CH=$(echo "$1 C01 C02 $(family $1)" | tr ' ' '\n' | awk '!s[$0]++' | tr '\n' ' ')
+    if [ $LEAN = 1 ]; then FAM=""; else FAM=$(family $1); fi
+    CH=$(echo "$1 C01 C02 $FAM" | tr ' ' '\n' | awk '!s[$0]++' | tr '\n' ' ')
     /verif/tools/seed_eval.sh $1 $2 $CH 2>&1 | tail -3
   fi
 done
